@@ -186,8 +186,11 @@ func (p *parser) alias() ast.Expression {
 //   - their length
 //   - how many reference parameters they take
 //   - how many generic parameters they take
+//
+// the sort is stable: aliases that are equal in all of the above
+// keep the (deterministic) order in which they were matched
 func sortAliases(matchedAliases []ast.Alias) {
-	sort.Slice(matchedAliases, func(i, j int) bool {
+	sort.SliceStable(matchedAliases, func(i, j int) bool {
 		toksi, toksj := matchedAliases[i].GetTokens(), matchedAliases[j].GetTokens()
 		if len(toksi) != len(toksj) {
 			return len(toksi) > len(toksj)
